@@ -112,6 +112,19 @@ func (h *c09Sched) releaseAll() {
 	h.mu.Unlock()
 }
 
+// c09Budget: how long the harness waits for a synchronisation event of the real code (a yield, a
+// return, a frame) before it gives the history up.  Every such wait is on a channel the real code
+// signals; the budget only bounds a machine that does not schedule the goroutine at all.  Its expiry is
+// NEVER evidence about the property: the history is abandoned as "inconclusive" and counted.
+var c09Budget = c09BudgetFromEnv()
+
+// c09Inconclusive is the panic value that abandons a history whose real goroutines did not get to run
+// within c09Budget.
+type c09Inconclusive struct{ why string }
+
+// number of abandoned histories in this run (a few are tolerated, then the stream stops early)
+var c09Abandoned atomic.Int32
+
 // next waits for the next event of thread t.
 func (h *c09Sched) next(t int) string {
 	select {
@@ -120,8 +133,8 @@ func (h *c09Sched) next(t int) string {
 			return fmt.Sprintf("unexpected-event:%d@%s", e.t, e.at)
 		}
 		return e.at
-	case <-time.After(10 * time.Second):
-		return "stuck"
+	case <-time.After(c09Budget):
+		panic(c09Inconclusive{fmt.Sprintf("no event of goroutine %d within %v", t, c09Budget)})
 	}
 }
 
@@ -149,10 +162,30 @@ func TestVerifC09Sched(t *testing.T) {
 	if VThorough() {
 		hist = 100000
 	}
-	for hi := 0; hi < hist; hi++ {
+	for hi := 0; hi < hist && c09Abandoned.Load() < 3; hi++ {
+		c09SchedHistory(r.Fork(), st, stat)
+	}
+	stat.Write("c09sched")
+}
+
+func c09SchedHistory(r *VRand, st *VStream, stat *VStats) {
+	{
 		n := 2 + r.Intn(3)
 		w := newC09FwdWorld(n)
 		h := newC09Sched()
+		defer func() {
+			verifYieldHook = nil
+			h.releaseAll()
+			if e := recover(); e != nil {
+				inc, ok := e.(c09Inconclusive)
+				if !ok {
+					panic(e)
+				}
+				c09Abandoned.Add(1)
+				stat.Inc("sched.inconclusive")
+				st.Emit("X inconclusive sched "+strings.ReplaceAll(inc.why, " ", "_"), "inconclusive")
+			}
+		}()
 		verifYieldHook = h.hook
 		st.Emit(fmt.Sprintf("F reset %d recheck 1", n), w.obs("idle"))
 		// thread states as the harness sees them: idle / busy / mid (parked inside a call)
@@ -236,12 +269,10 @@ func TestVerifC09Sched(t *testing.T) {
 				}
 			}
 		}
-		verifYieldHook = nil
 		if w.entry.retired.Load() {
 			stat.Inc("sched.hist.retired")
 		}
 	}
-	stat.Write("c09sched")
 }
 
 // ------------------------------------------------------------------------------------------
@@ -302,11 +333,11 @@ func (c *c09PipeConn) SetDeadline(time.Time) error      { return nil }
 func (c *c09PipeConn) SetReadDeadline(time.Time) error  { return nil }
 func (c *c09PipeConn) SetWriteDeadline(time.Time) error { return nil }
 
-// how long the harness waits for an event of the real code before it declares it lost
-const c09PipeWait = 1500 * time.Millisecond
+// c09PipeWait: see c09Budget (same rule: expiry abandons the history, it is not an observation)
+var c09PipeWait = c09Budget
 
-// number of such losses in this run
-var c09PipeLost atomic.Int32
+// lost abandons the current history.
+func c09Lost(why string) { panic(c09Inconclusive{why}) }
 
 func c09PipeQuery(tag int) []byte {
 	m := new(dnsmessage.Msg)
@@ -371,8 +402,8 @@ func (w *c09PipeWorld) slotTok(s *responseSlot) int {
 func (w *c09PipeWorld) resStr(r c09PipeRes, conn int) string {
 	switch {
 	case r.err == nil && r.msg == nil:
-		c09PipeLost.Add(1)
-		return "stuck"
+		c09Lost("a RoundTrip did not return within the budget")
+		return ""
 	case r.err == nil:
 		tag := c09PipeTag(r.msg)
 		return fmt.Sprintf("msg:%d.%d.%d", r.msg.Id, tag, tag/1000)
@@ -391,6 +422,7 @@ func (w *c09PipeWorld) waitIdle(c int) {
 	case <-w.conns[c].idle:
 	case <-w.conns[c].closed:
 	case <-time.After(c09PipeWait):
+		c09Lost("readLoop did not come back to Read within the budget")
 	}
 }
 
@@ -426,8 +458,8 @@ func (w *c09PipeWorld) waitEvent() c09Ev {
 	case e := <-w.h.event:
 		return e
 	case <-time.After(c09PipeWait):
-		c09PipeLost.Add(1)
-		return c09Ev{at: "stuck"}
+		c09Lost("no yield of the closing goroutine within the budget")
+		return c09Ev{}
 	}
 }
 
@@ -458,7 +490,7 @@ func (w *c09PipeWorld) runCloser(c, k int) {
 				case res := <-wt.done:
 					w.finishWaiter(i, res)
 				case <-time.After(c09PipeWait):
-					w.st.Emit(fmt.Sprintf("P take %d", i), "got=stuck")
+					c09Lost("a waiter woken by closeWithErr did not return within the budget")
 				}
 			}
 		}
@@ -514,25 +546,33 @@ func TestVerifC09Pipe(t *testing.T) {
 	}
 	for hi := 0; hi < hist; hi++ {
 		c09PipeScenario(r.Fork(), st, stat)
-		if c09PipeLost.Load() > 12 {
-			// the real code no longer follows the step structure the harness drives (every wait below is a
-			// 1.5 s timeout): enough evidence, stop instead of timing out thousands of times
-			st.Emit("P harness", "stuck: giving up after repeated loss of track")
-			break
+		if c09Abandoned.Load() >= 3 {
+			break // the machine does not schedule our goroutines: stop early, the abandoned histories are counted
 		}
 	}
 	stat.Write("c09pipe")
 }
 
 func c09PipeScenario(r *VRand, st *VStream, stat *VStats) {
+	var world *c09PipeWorld
 	defer func() {
 		if e := recover(); e != nil {
 			verifYieldHook = nil
-			st.Emit("P harness", fmt.Sprintf("stuck: harness lost track of the real code: %v", e))
+			if world != nil {
+				world.h.releaseAll()
+			}
+			if inc, ok := e.(c09Inconclusive); ok {
+				c09Abandoned.Add(1)
+				stat.Inc("pipe.inconclusive")
+				st.Emit("X inconclusive pipe "+strings.ReplaceAll(inc.why, " ", "_"), "inconclusive")
+				return
+			}
+			st.Emit("P harness", fmt.Sprintf("crash: %v", e))
 		}
 	}()
 	{
 		w := &c09PipeWorld{st: st, stat: stat, h: newC09Sched(), slots: map[*responseSlot]int{}, holder: map[int]int{}}
+		world = w
 		nconn := 1 + r.Intn(2)
 		for c := 0; c < nconn; c++ {
 			w.conns = append(w.conns, newC09PipeConn(c))
@@ -597,7 +637,7 @@ func c09PipeScenario(r *VRand, st *VStream, stat *VStats) {
 					st.Emit(fmt.Sprintf("P start %d %d %d %d", i, c, wt.id, wt.slot), "ok")
 					stat.Inc("pipe.start")
 				case <-time.After(c09PipeWait):
-					st.Emit(fmt.Sprintf("P start %d %d 0 0", i, c), "stuck")
+					c09Lost("a RoundTrip did not write its request within the budget")
 				}
 			case 3, 4, 5: // the upstream sends a frame
 				c := r.Intn(nconn)
@@ -635,7 +675,7 @@ func c09PipeScenario(r *VRand, st *VStream, stat *VStats) {
 					st.Emit(fmt.Sprintf("P recv %d %d %d", c, id, tag), "held=-")
 					stat.Inc("pipe.recv.dropped")
 				case <-time.After(c09PipeWait):
-					st.Emit(fmt.Sprintf("P recv %d %d %d", c, id, tag), "stuck")
+					c09Lost("readLoop neither parked nor went back to Read within the budget")
 				}
 			case 6, 7: // the parked readLoop performs slot.set
 				var cs []int
@@ -666,8 +706,11 @@ func c09PipeScenario(r *VRand, st *VStream, stat *VStats) {
 						if tok != slot {
 							continue
 						}
-						deadline := time.Now().Add(2 * time.Second)
-						for time.Now().Before(deadline) {
+						deadline := time.Now().Add(c09PipeWait)
+						for {
+							if !time.Now().Before(deadline) {
+								c09Lost("the released readLoop did not perform slot.set within the budget")
+							}
 							select {
 							case m := <-s.result:
 								if m == nil {
@@ -677,10 +720,11 @@ func c09PipeScenario(r *VRand, st *VStream, stat *VStats) {
 									val = fmt.Sprintf("msg:%d.%d.%d", m.Id, tag, tag/1000)
 								}
 								s.result <- m // put it back
-								deadline = time.Time{}
 							default:
-								runtime.Gosched()
+								time.Sleep(200 * time.Microsecond)
+								continue
 							}
+							break
 						}
 					}
 				}
@@ -694,7 +738,7 @@ func c09PipeScenario(r *VRand, st *VStream, stat *VStats) {
 								st.Emit(fmt.Sprintf("P set %d", slot), "box="+got)
 								w.finishWaiter(i, res)
 							case <-time.After(c09PipeWait):
-								st.Emit(fmt.Sprintf("P set %d", slot), "box=stuck")
+								c09Lost("a waiter whose slot was set did not return within the budget")
 							}
 						}
 					}
@@ -720,20 +764,35 @@ func c09PipeScenario(r *VRand, st *VStream, stat *VStats) {
 				wt.cancel()
 				// a RoundTrip whose context ended closes its connection (closeWithErr closes pc.closed
 				// before it walks the pending slots)
+				// closeWithErr closes pc.closed before it walks the pending slots, so "closed" is signalled
+				// before the first yield; a RoundTrip that returns WITHOUT having closed is a definite observation
 				closed := "0"
+				var early *c09PipeRes
 				select {
 				case <-w.pcs[c].closed:
 					closed = "1"
+				case res := <-wt.done:
+					early = &res
+					select {
+					case <-w.pcs[c].closed:
+						closed = "1"
+					default:
+					}
 				case <-time.After(c09PipeWait):
-					c09PipeLost.Add(1)
+					c09Lost("a cancelled RoundTrip neither closed its connection nor returned within the budget")
 				}
 				st.Emit(fmt.Sprintf("P cancel %d", i), fmt.Sprintf("pc=leaving:%d.%d.%d.0.ctx closed=%s", c, wt.id, wt.slot, closed))
-				w.runCloser(c, k)
-				// the closer is the cancelled waiter itself: it now returns
 				var res c09PipeRes
-				select {
-				case res = <-wt.done:
-				case <-time.After(c09PipeWait):
+				if early != nil {
+					res = *early
+				} else {
+					w.runCloser(c, k)
+					// the closer is the cancelled waiter itself: it now returns
+					select {
+					case res = <-wt.done:
+					case <-time.After(c09PipeWait):
+						c09Lost("a cancelled RoundTrip did not return within the budget")
+					}
 				}
 				st.Emit(fmt.Sprintf("P leave %d", i), "pc=done:"+w.resStr(res, c))
 				wt.state = "done"
@@ -757,10 +816,13 @@ func c09PipeScenario(r *VRand, st *VStream, stat *VStats) {
 			pcn := w.pcs[c]
 			closed := make(chan struct{})
 			go func() { pcn.Close(); close(closed) }()
-			select {
-			case <-closed:
-			case <-time.After(c09PipeWait):
-				w.h.releaseAll()
+			for waited := time.Duration(0); waited < c09PipeWait; waited += 20 * time.Millisecond {
+				select {
+				case <-closed:
+					waited = c09PipeWait
+				case <-time.After(20 * time.Millisecond):
+					w.h.releaseAll() // a goroutine that had read the hook before it was removed may park late
+				}
 			}
 		}
 		for _, wt := range w.ws {
